@@ -191,7 +191,20 @@ def run_batch(a):
         if g.run.timed_out:
             return {"inconclusive": "watchdog"}
         if g.run.rc != 0:
-            return {"blocked": len(types) * len(SITES), "note": "generation failed rc=%s: %s" % (g.run.rc, g.run.err[-300:])}
+            # the tool refuses (or dies on) a batch of supported types: halve the batch until the expressions it fails on are isolated —
+            # each of them is a type expression without a translation
+            if len(types) > 1:
+                h = len(types) // 2
+                parts = [run_batch((cli, types[:h], mode, spelling)), run_batch((cli, types[h:], mode, spelling))]
+                if any("inconclusive" in p_ for p_ in parts):
+                    return {"inconclusive": "watchdog"}
+                return {"ok": sum(p_.get("ok", 0) for p_ in parts), "bad": [b for p_ in parts for b in p_.get("bad", [])], "n": sum(p_.get("n", 0) for p_ in parts),
+                        "blocked": sum(p_.get("blocked", 0) for p_ in parts), "note": "; ".join(p_["note"] for p_ in parts if p_.get("note"))[:300]} if any(p_.get("blocked") for p_ in parts) else \
+                       {"ok": sum(p_.get("ok", 0) for p_ in parts), "bad": [b for p_ in parts for b in p_.get("bad", [])], "n": sum(p_.get("n", 0) for p_ in parts)}
+            (i, _t) = types[0]
+            tail = (g.run.err or g.run.out or "").strip().splitlines()
+            first = next((ln for ln in tail if "panicked at" in ln or ln.startswith("Error")), tail[-1] if tail else "")
+            return {"ok": 0, "bad": [(i, "generation", None, "the run fails on this type alone: exit %s, %s" % (g.run.rc, first[:160]))], "n": len(SITES)}
         out = g.output
         obs = observe(out, types, mode)
         tmap = dict(types)
@@ -356,6 +369,11 @@ def run(tier):
                 v.case((mode, s, rg.rust(t), spelling), nontrivial=rg.depth(t) >= 1)
         for (i, site, got, note) in res["bad"]:
             t = tmap[i]
+            if site == "generation":
+                v.violation("C05 generation-fails %s %s%s" % (mode, rg.skeleton(t), " spelling=path-qualified" if spelling else ""),
+                            "a project that uses the Rust type `%s` at the five sites cannot be generated at all (%s mode): %s" % (rg.rust(t), mode, note),
+                            proj.witness_of(build_batch([(i, t)], spelling=spelling), mode, extra={"type": rg.rust(t), "spelling": spelling}))
+                continue
             sigs = defects.classify_c05(t, site, mode, got, note)
             what = "%s site, %s mode: Rust type `%s` expected %s but emitted %s %s" % (
                 site, mode, rg.rust(t), sh.show(rg.M(t)), sh.show(got) if got else "<nothing usable>", note)
